@@ -6,6 +6,8 @@
 # usage: try_seeded.sh <seeded-id> <check-id>...      e.g. try_seeded.sh C01-m1 C01 C05
 set -u
 id=$1; shift
+T=${SEEDRUN_TARGET:-/tmp/seedrun-target}
+D=${SEEDED_DIR:-/verif/seeded}   # SEEDED_DIR=/verif/benign for the behaviour-preserving changes
 S=/tmp/seedrun-$id
 rm -rf $S; mkdir -p $S/verifroot
 git -C /repo worktree prune
@@ -13,13 +15,13 @@ git -C /repo worktree add -q --detach $S/repo HEAD || exit 2
 git -C /verif archive HEAD mc | tar -x -C $S   # the committed harness, not a half-edited working tree
 sed -i "s|/repo/typegen|$S/repo/typegen|; s|/repo/description|$S/repo/description|" $S/mc/core/Cargo.toml
 cp /verif/known_findings.json $S/verifroot/
-( cd $S/repo && git apply /verif/seeded/$id/patch.diff ) || { echo "patch does not apply"; exit 2; }
-export CARGO_TARGET_DIR=/tmp/seedrun-target CARGO_NET_OFFLINE=true VERIF_ROOT=$S/verifroot
-rm -f /tmp/seedrun-target/release/mc /tmp/seedrun-target/release/mc-plain
-( cd $S/mc && cargo build --release --offline -p mc >$S/build.log 2>&1 && cargo build --release --offline -p mc-plain >>$S/build.log 2>&1 ) || { echo "BUILD FAILED (harness does not build against the changed repo)" | tee /verif/seeded/$id/detection.txt; grep -m5 -A6 "^error" $S/build.log; git -C /repo worktree remove --force $S/repo; git -C /repo worktree prune; rm -rf $S; exit 2; }
-out=/verif/seeded/$id/detection.txt; : > $out
+( cd $S/repo && git apply $D/$id/patch.diff ) || { echo "patch does not apply"; exit 2; }
+export CARGO_TARGET_DIR=$T CARGO_NET_OFFLINE=true VERIF_ROOT=$S/verifroot
+rm -f $T/release/mc $T/release/mc-plain
+( cd $S/mc && cargo build --release --offline -p mc >$S/build.log 2>&1 && cargo build --release --offline -p mc-plain >>$S/build.log 2>&1 ) || { echo "BUILD FAILED (harness does not build against the changed repo)" | tee $D/$id/detection.txt; grep -m5 -A6 "^error" $S/build.log; git -C /repo worktree remove --force $S/repo; git -C /repo worktree prune; rm -rf $S; exit 2; }
+out=$D/$id/detection.txt; : > $out
 for c in "$@"; do
-  timeout 900 /tmp/seedrun-target/release/mc check $c --tier ${TIER:-quick} > $S/$c.out 2> $S/$c.err; code=$?
+  timeout 900 $T/release/mc check $c --tier ${TIER:-quick} > $S/$c.out 2> $S/$c.err; code=$?
   nv=$(grep -c '^VIOLATION' $S/$c.out)
   echo "check=$c tier=${TIER:-quick} exit=$code violations=$nv" | tee -a $out
   grep -m3 "signature:" $S/$c.err | sed 's/^/    /' | tee -a $out
